@@ -25,7 +25,7 @@ def report(ctx, tot, universe):
 ATOMS = ["1", "n", '"s"', "s", "[]", "[1]", '["a"]', "None", "Some(1)", 'Some("a")', "o", "Unit", "True", "(1, 2)", 'throw("x")',
          "fun(x: Int): Int { x }", "Red", "Pt{ x: 1 }", "l", "ls"]
 SMALL = ["1", '"s"', "[]", "[1]", "None", "Some(1)", 'throw("x")', "l"]
-PRELUDE = ("enum Color { Red, Green }\nstruct Pt { x: Int }\n"
+PRELUDE = ("enum Color { Red, Green }\nstruct Pt { x: Int }\nfun takes_list(l: List<Int>): Int { 0 }\n"
            "fun t(n: Int, s: String, o: Option<Int>, l: List<Int>, ls: List<String>) {\n  let r = @\n  r\n}\n")
 
 
@@ -41,7 +41,15 @@ def constructs():
         yield "match Some/_", f"match o {{ Some(v) => {{ {a} }} _ => {{ {b} }} }}"
         yield "match None/_", f"match o {{ None => {{ {a} }} _ => {{ {b} }} }}"
         yield "match _/Some", f"match o {{ _ => {{ {a} }} Some(v) => {{ {b} }} }}"
+    # the same literals where the checker knows what it expects (checking mode): a `for` subject, an annotated let, an argument
+    for a, b in itertools.product(ATOMS, repeat=2):
+        yield "list literal as for subject", f"STMT:for zz in [{a}, {b}] {{ }}"
+        yield "list literal under a let hint", f"STMT:let q: List<Int> = [{a}, {b}]"
+        yield "list literal as an argument", f"takes_list([{a}, {b}])"
+        yield "dict literal under a let hint", f'STMT:let q: Dict<Int> = Dict["j" => {a}, "k" => {b}]'
+        yield "if/else under a let hint", f"STMT:let q: Int = if True {{ {a} }} else {{ {b} }}"
     for a, b, c in itertools.product(SMALL, repeat=3):
+        yield "list literal of three as for subject", f"STMT:for zz in [{a}, {b}, {c}] {{ }}"
         yield "list literal of three", f"[{a}, {b}, {c}]"
         yield "match Some/None/_", f"match o {{ Some(v) => {{ {a} }} None => {{ {b} }} _ => {{ {c} }} }}"
         yield "if/else if/else", f"if True {{ {a} }} else if False {{ {b} }} else {{ {c} }}"
@@ -50,7 +58,7 @@ def constructs():
 def call_sites(ctx):
     """The places where the checker combines types: every construct over the atom pools, judged by the hook with the real is_subtype."""
     progs = list(constructs())
-    srcs = [PRELUDE.replace("@", e) for _, e in progs]
+    srcs = [PRELUDE.replace("let r = @\n  r", e[5:]) if e.startswith("STMT:") else PRELUDE.replace("@", e) for _, e in progs]
     jobs = [{"op": "combine_types", "srcs": srcs[i:i + 40]} for i in range(0, len(srcs), 40)]
     res = ctx.pool.map(jobs, batch=1, timeout=300)
     n_sites = combined_ok = combined_err = 0
@@ -62,16 +70,20 @@ def call_sites(ctx):
             if "sites" not in one:
                 raise Machinery(f"generated program does not check: {src!r} {str(one)[:200]}")
             label = progs[srcs.index(src)][0]
+            err_at = [e["position"]["start_offset"] for e in one.get("errors", [])]
             for site in one["sites"]:
                 n_sites += 1
-                if site["combined_is_error"]:
+                sp = site["position"]
+                if site["combined_is_error"] or any(sp["start_offset"] <= o < sp["end_offset"] for o in err_at):
+                    # no combined type, or the checker reports a type error inside this expression: the statement allows that
                     combined_err += 1
                     continue
                 combined_ok += 1
                 kinds.add(site["kind"])
                 if site["not_covered"]:
                     ctx.violation(f"{label}: the combined type does not cover a part", {"src": src, "site": site}, cli_cmd="garden check <file> (hover over the expression shows the combined type)")
-                elif site["equal_not_kept"]:
+                elif site["equal_not_kept"] and not any(w in label for w in ("hint", "argument", "for subject")):
+                    # (where the checker is given an expected type it records that type for the expression: only the covering clause applies there)
                     ctx.violation(f"{label}: equal types are not combined to that same type", {"src": src, "site": site})
     ctx.outcome("call sites: combined type reported", combined_ok)
     ctx.outcome("call sites: no combined type (checker reports a type error)", combined_err)
